@@ -205,6 +205,17 @@ func c18R3(e *Engine) {
 				stored[fieldOf(fa).Name()] = s.Val
 			}
 		})
+		// nothing reference-typed that the constructor installs may come from package-level state (shared by every instance)
+		for name, v := range stored {
+			if !isRefType(v.Type()) {
+				continue
+			}
+			for _, src := range phiSources(v) {
+				if g := globalRoot(src); g != nil {
+					e.fail("R3", t.role+"."+t.fn+":"+name+":from-global", e.pos(fn.Pos()), "the constructor installs the object held by package-level variable %s in field %s: every instance built by it shares that object, so state registered through one client is visible to all others", g.Name(), name)
+				}
+			}
+		}
 		for i := 0; i < st.NumFields(); i++ {
 			f := st.Field(i)
 			_, isMap := f.Type().Underlying().(*types.Map)
@@ -355,6 +366,55 @@ func c18R4(e *Engine) {
 }
 
 func c18R5(e *Engine) {
+	// clearing a table clears every index, and an index reset resets both containers (= C03.R2 for resets, C03.R5)
+	before := len(e.obs)
+	c03R5(e)
+	if cs := e.coreModel(); cs != nil {
+		tc := &tcase{e: e, spec: indexPair(cs)}
+		for fn := range e.writersOf(cs.refs, e.all) {
+			ps, prob := tc.paths(fn, 16)
+			isReset := prob == "" && len(ps) > 0
+			for _, p := range ps {
+				for _, ef := range p.effects {
+					if ef.kind != effMapClear && ef.kind != effSliceClear {
+						isReset = false
+					}
+				}
+				if len(p.effects) == 0 {
+					isReset = false
+				}
+			}
+			if isReset {
+				tc.run("R5", fn)
+			}
+		}
+		for fn := range e.writersOf(cs.sortedKeys, e.all) {
+			ps, prob := tc.paths(fn, 16)
+			onlyClears := prob == "" && len(ps) > 0
+			for _, p := range ps {
+				if len(p.effects) == 0 {
+					onlyClears = false
+				}
+				for _, ef := range p.effects {
+					if ef.kind != effMapClear && ef.kind != effSliceClear {
+						onlyClears = false
+					}
+				}
+			}
+			already := false
+			for _, o := range e.obs[before:] {
+				if o.Construct == e.fname(fn)+":refs/sortedKeys" {
+					already = true
+				}
+			}
+			if onlyClears && !already {
+				tc.run("R5", fn)
+			}
+		}
+	}
+	for i := before; i < len(e.obs); i++ {
+		e.obs[i].Rule = "R5"
+	}
 	for _, role := range clientRoles {
 		dt := e.clientMethods(role)["DeleteTable"]
 		tf := e.field(role, "Client", "tables")
